@@ -40,6 +40,11 @@ Proof.
   - intros k d b b' Hk Hb Hb'. rewrite (aggregate_nth o Ls k d Hk). exact (aggregate_entry o laws (nth k Ls d) b b' Hb Hb').
 Qed.
 
+(* the premises "H Hermitian" and "dt real" of the theorems below are satisfiable *)
+Example C17_premises_satisfiable : forall (o : Kops), Klaws o -> forall D,
+  herm_on o D (fun _ _ => k0 o) /\ kconj o (k1 o) = k1 o.
+Proof. intros o laws D. split; [intros a b _ _; symmetry; apply (conj_0 o laws) | apply (conj_1 o laws)]. Qed.
+
 (* noise_term_spec (2): with a Hermitian H, the effective Hamiltonian H_eff = H - (i/2) sum_J J^dagger J satisfies
    H_eff - H_eff^dagger = -i sum_J J^dagger J   (every dimension, every jump list).  This is exactly the premise under
    which the Lindblad generator built from H_eff and Js is trace-free (C16_lindblad_trace_free). *)
